@@ -101,6 +101,9 @@ def show_pairs(items):
     return "-" if not items else ",".join(f"{a}:{b}" for a, b in items)
 
 
+NO_INDEX = [0]   # cases whose internal index could not be looked at (a refactoring replaced it): oracle only
+
+
 def index_line(d, kind):
     try:
         st = d._datalists[1]
@@ -147,8 +150,12 @@ def check_lookup_lists(ctx: Ctx):
             except Exception as e:  # noqa: BLE001
                 res.append("err " + exc_name(e))
         d.add_table(1)
-        req.append(f"layout index 0 {len(entries)} " + " ".join(f"{k} {rc} {v}" for k, rc, v in entries) + " " + " ".join(map(str, qs)))
-        out.append(index_line(d, kind) + " q=" + ";".join(res))
+        il = index_line(d, kind)
+        if il != "internal-index-not-available":   # otherwise only the property oracle below looks at this case
+            req.append(f"layout index 0 {len(entries)} " + " ".join(f"{k} {rc} {v}" for k, rc, v in entries) + " " + " ".join(map(str, qs)))
+            out.append(il + " q=" + ";".join(res))
+        else:
+            NO_INDEX[0] += 1
         # ---- the property itself, on the real class: distinct keys => every entry is found under its key, in any order
         if len(set(keys)) == len(keys):
             want = {k: v for k, _, v in entries}
@@ -230,9 +237,16 @@ def check_lookup_lists(ctx: Ctx):
             except Exception as e:  # noqa: BLE001
                 res.append("err " + exc_name(e))
         ents = ",".join(f"{e.key}:{e.refcount}:{_val_id(kind, e)}" for e in dl.entries) or "-"
-        req.append(f"layout lkey {nlid} {len(entries)} " + " ".join(f"{k} {rc} {v}" for k, rc, v in entries) + " " + " ".join(map(str, vals)))
-        out.append(";".join(res) + f" | {ents} nlid={dl.nextListID} " + index_line(d, kind))
+        il = index_line(d, kind)
+        if il != "internal-index-not-available":
+            req.append(f"layout lkey {nlid} {len(entries)} " + " ".join(f"{k} {rc} {v}" for k, rc, v in entries) + " " + " ".join(map(str, vals)))
+            out.append(";".join(res) + f" | {ents} nlid={dl.nextListID} " + il)
+        else:
+            NO_INDEX[0] += 1
     ctx.correspond("DataLists.lookup_key on loaded lists (refcounts, new keys)", req, out, keep=1)
+    if NO_INDEX[0]:
+        ctx.notes.append(f"{NO_INDEX[0]} DataLists cases without the model line: the internal index (next_key / by_key / key_index / "
+                         "by_value) is not available in this tree; the look-ups were judged by the property oracle only")
 
 
 # ---------------------------------------------------------------------------------------------
